@@ -362,4 +362,45 @@ PROPS["C10"] = {
     "level_note": "Trusted: Lean kernel, Spec/Sha1.lean, the httphead and bufio models, net/url, math/rand, harness.",
 }
 
+PROPS["C11"] = {
+    "lean": ["WsVerif.Props.C11", "WsVerif.Bridge.C11"],
+    "rule": "(pair) ws.Dialer.Upgrade wired to ws.Upgrader.Upgrade in-process (the request the dialer writes is fed to the upgrader over a "
+            "chunked reader, its output back to the dialer over another): 9 dialer configurations (no/one/three subprotocols, "
+            "permessage-deflate offers with and without parameters, a second extension with a quoted value, extra headers incl. a 200-byte "
+            "line, Host override) x 12 upgrader configurations (selectors matching none/first/later protocol, three wsflate negotiators, two "
+            "deprecated extension selectors, extra headers, OnBeforeUpgrade header, rejecting OnHost) x buffer sizes default/16/1-300 x "
+            "chunk sizes 0/1/7/16/64. (chup/chdl) 8 requests x 3 upgrader configurations and 7 responses x 2 dialer configurations, each run "
+            "under 6 buffer sizes x 12 chunkings (1 byte ... whole message), with EOF and read-error endings, incl. lines longer than the "
+            "buffer and cut messages: the number of distinct outcomes must be 1. (dbgup/dbgdl) wsutil.DebugUpgrader / DebugDialer against the "
+            "plain types on the same inputs: same outcome and post-handshake bytes, each callback called once, reported request/response = "
+            "bytes exchanged; a failing dial.",
+    "exhaustive_families": [],
+    "trusted_base": PROPS["C09"]["trusted_base"][:2] + [
+        "Model/Upgrader.lean, Model/Dialer.lean, Model/Http.lean (bufio.Reader as far as readLine uses it) as in C09/C10; the composition "
+        "dialer -> upgrader -> dialer is computed in the model and compared field by field with the real pair",
+        "Bridge.C11: readLine's, DebugDialer's, headEndIndex's, prefetchResponseReader's and DebugUpgrader's conditions and the pooled "
+        "buffer acquisition of both handshakes regenerated from the source",
+        "the debugging wrappers themselves are NOT modelled (they sit on net/http's ReadRequest/ReadResponse): they are decided by the "
+        "differential oracle alone (plain vs wrapped run on identical inputs) - stated as such, no theorem covers them",
+    ],
+    "assumptions": COMMON_ASSUME + [
+        "the pair is run sequentially (request fully written, then upgrader, then response read): the handshake is one request and one "
+        "response, so no interleaving is lost",
+        "bytes a client sends before it has the response are outside (Upgrader drops what its pooled reader buffered, with and without the "
+        "wrapper)",
+    ],
+    "level_text": "Kernel-checked: for EVERY chunking of the transport and every buffer size, whatever Upgrader.Upgrade / Dialer.Upgrade leave "
+                  "readable is a suffix of what the peer sent (readLine conserves bytes across ErrBufferFull reassembly - `readLine_all`, "
+                  "`upgrade_consumes_prefix`, C10.rest_preserved); Sec-WebSocket-Accept always has the 28 characters the client insists on; "
+                  "for every server configuration without objecting callbacks and every client configuration the dialer's header lines pass "
+                  "the upgrader, the key kept is the dialer's nonce, the 101 is chosen and its three lines pass the dialer (`pair_lines`, "
+                  "parsed-line level). PARTIAL: that the parsed lines are a function of the flat byte stream alone, and agreement with "
+                  "subprotocols/extensions in play, are decided by the correspondence run (model = implementation on the whole pair and "
+                  "chunking grids; distinct outcomes = 1), not by a theorem. The debugging wrappers are decided by the differential oracle "
+                  "only. The unchanged tree violated the property: F15 (DebugDialer with OnResponse panics when the dial fails) and F19 "
+                  "(for a response with bare-LF line ends, which Dialer accepts, DebugDialer reported 'HTT' as the response and replayed the "
+                  "head as post-handshake bytes) - repaired by fix commit eb9e34f.",
+    "level_note": "Trusted: Lean kernel, the httphead/bufio models, net/http inside the wrappers, harness.",
+}
+
 NOT_APPLICABLE = {}
